@@ -382,3 +382,28 @@ Proof.
   - vm_compute. reflexivity.
   - intros H. vm_compute in H. discriminate.
 Qed.
+
+(** * The receive-side glue for trailers (decodeTrailers) *)
+
+Theorem decode_trailers_sound maxb enclen tr fs m :
+  0 <= maxb -> decode_trailers maxb enclen tr fs = inr m ->
+  enclen <= maxb /\ tr = false /\ fs <> [] /\ WFtrailer maxb fs /\ m = trailers_of fs.
+Proof.
+  unfold decode_trailers. intros Hm H.
+  destruct (Z.ltb_spec maxb enclen) as [|Hle]; [discriminate|]. destruct tr; [discriminate|].
+  destruct fs as [|f r]; [discriminate|].
+  destruct (parseTrailers maxb (f :: r) false) as [e|m'] eqn:Hp; [destruct e; discriminate|].
+  inversion H; subst m'. apply parseTrailers_sound in Hp as (_ & Hw & ->); auto.
+  split; [exact Hle|]. split; [reflexivity|]. split; [discriminate|]. split; [exact Hw|reflexivity].
+Qed.
+
+(** what either writer puts on the stream as a trailer section passes the receive-side glue: in
+    particular it is never the empty payload the QPACK decoder chokes on (seeded change C19-b) *)
+Theorem writer_decode_agree t fs maxb enclen :
+  write_trailers t = Some fs -> tmap_ok t -> enclen <= maxb -> section_size fs <= maxb ->
+  decode_trailers maxb enclen false fs = inr (trailers_of fs).
+Proof.
+  intros Hw Hok He Hs. destruct (trailers_agree t fs maxb Hw Hok Hs) as [Hne Hp].
+  unfold decode_trailers. destruct (Z.ltb_spec maxb enclen); [lia|].
+  destruct fs as [|f r]; [contradiction|]. rewrite Hp. reflexivity.
+Qed.
